@@ -32,6 +32,7 @@ type ParseObs struct {
 	ArgvQ             []string               `json:"argv_q"`
 	Err               string                 `json:"err,omitempty"`
 	ErrKind           string                 `json:"err_kind,omitempty"`
+	ErrArgs           []string               `json:"err_args,omitempty"`
 	HasErr            bool                   `json:"has_err"`
 	IsParsing         bool                   `json:"is_parsing"`
 	Remaining         []string               `json:"remaining"`
@@ -167,7 +168,7 @@ func runParse(idx int, seed int64, p *ProgDef, argv []string) *ParseObs {
 		obs.HasErr = true
 		obs.Err = r.err.Error()
 		obs.IsParsing = errors.Is(r.err, getoptions.ErrorParsing)
-		obs.ErrKind = classifyErr(obs.Err, obs.IsParsing)
+		obs.ErrKind, obs.ErrArgs = classifyErr(obs.Err, obs.IsParsing)
 	}
 	post := b.Opt.VerifDumpTree()
 	for i, o := range pre.Options {
@@ -193,7 +194,7 @@ func runParse(idx int, seed int64, p *ProgDef, argv []string) *ParseObs {
 	tab, order := floatTable(pre, argv)
 	errT := Ctor("None")
 	if obs.HasErr {
-		errT = Ctor("Some", Ctor("E", Str(obs.Err), Bool(obs.IsParsing), Ctor(obs.ErrKind)))
+		errT = Ctor("Some", Ctor("E", Str(obs.Err), Bool(obs.IsParsing), Ctor(obs.ErrKind), Strs(obs.ErrArgs)))
 	}
 	obs.term = Ctor("mkCase",
 		Ctor(modeNames[pre.Root.Mode]), Bool(pre.Root.MapKeysToLower),
